@@ -727,3 +727,123 @@ func (e *Engine) valEqNoFork(a, b Value) (same bool) {
 func floatBits(f float64) uint64 { return math.Float64bits(f) }
 
 var _ = fmt.Sprint
+
+// deepEq models reflect.DeepEqual over interpreter values (depth-bounded; cycles beyond
+// the bound are unsupported).
+func (e *Engine) deepEq(x, y Value, depth int) *smt.Term {
+	if depth > 40 {
+		e.unsupported("reflect.DeepEqual: nesting deeper than 40")
+	}
+	switch a := x.(type) {
+	case *smt.Term:
+		b, ok := y.(*smt.Term)
+		if !ok || a.W != b.W {
+			return e.ctx.False
+		}
+		return e.ctx.Eq(a, b)
+	case Str:
+		b, ok := y.(Str)
+		if !ok {
+			return e.ctx.False
+		}
+		return e.strEq(a, b)
+	case Float:
+		b, ok := y.(Float)
+		return e.ctx.Bool(ok && a.F == b.F)
+	case Iface:
+		b, ok := y.(Iface)
+		if !ok {
+			return e.ctx.False
+		}
+		if a.T == nil || b.T == nil {
+			return e.ctx.Bool(a.T == nil && b.T == nil)
+		}
+		if !types.Identical(a.T, b.T) {
+			return e.ctx.False
+		}
+		return e.deepEq(a.V, b.V, depth+1)
+	case Ptr:
+		b, ok := y.(Ptr)
+		if !ok {
+			return e.ctx.False
+		}
+		if a.Idx != nil || b.Idx != nil {
+			e.unsupported("reflect.DeepEqual on a symbolic element pointer")
+		}
+		if a.Obj == nil || b.Obj == nil {
+			return e.ctx.Bool(a.Obj == nil && b.Obj == nil)
+		}
+		if a.Obj == b.Obj {
+			return e.ctx.True
+		}
+		return e.deepEq(e.load(a.Obj), e.load(b.Obj), depth+1)
+	case *Struct:
+		b, ok := y.(*Struct)
+		if !ok || len(a.F) != len(b.F) {
+			return e.ctx.False
+		}
+		r := e.ctx.True
+		for i := range a.F {
+			r = e.ctx.And(r, e.deepEq(a.F[i], b.F[i], depth+1))
+		}
+		return r
+	case *Array:
+		b, ok := y.(*Array)
+		if !ok || len(a.E) != len(b.E) {
+			return e.ctx.False
+		}
+		r := e.ctx.True
+		for i := range a.E {
+			r = e.ctx.And(r, e.deepEq(a.E[i], b.E[i], depth+1))
+		}
+		return r
+	case Slice:
+		b, ok := y.(Slice)
+		if !ok || (a.Arr == nil) != (b.Arr == nil) || a.Len != b.Len {
+			return e.ctx.False
+		}
+		r := e.ctx.True
+		for i := 0; i < a.Len; i++ {
+			r = e.ctx.And(r, e.deepEq(e.load(e.sub(a.Arr, a.Off+i)), e.load(e.sub(b.Arr, b.Off+i)), depth+1))
+		}
+		return r
+	case *MapObj:
+		b, ok := y.(*MapObj)
+		if !ok || (a == nil) != (b == nil) {
+			return e.ctx.False
+		}
+		if a == nil || a == b {
+			return e.ctx.True
+		}
+		if len(a.Keys) != len(b.Keys) {
+			return e.ctx.False
+		}
+		r := e.ctx.True
+		for i, k := range a.Keys {
+			found := false
+			for j, k2 := range b.Keys {
+				if eq := e.deepEq(k, k2, depth+1); eq.IsTrue() {
+					r = e.ctx.And(r, e.deepEq(a.Vals[i], b.Vals[j], depth+1))
+					found = true
+					break
+				} else if !eq.IsFalse() {
+					e.unsupported("reflect.DeepEqual on maps with symbolic keys")
+				}
+			}
+			if !found {
+				return e.ctx.False
+			}
+		}
+		return r
+	case *Closure:
+		b, ok := y.(*Closure)
+		return e.ctx.Bool(ok && a == nil && b == nil) // non-nil funcs are never deeply equal
+	case *ChanObj:
+		b, ok := y.(*ChanObj)
+		return e.ctx.Bool(ok && a == b)
+	case nil:
+		return e.ctx.Bool(y == nil)
+	}
+	e.unsupported("reflect.DeepEqual on %T", x)
+	return nil
+}
